@@ -1,4 +1,5 @@
 """Execution state and obligation bookkeeping."""
+import os
 import time
 
 import z3
@@ -94,13 +95,20 @@ class Prover:
             return "proved", None, 0.0
         t0 = time.time()
         T = timeout_ms or self.timeout_ms
+        # Budgets are z3 resource units (rlimit), not wall-clock: the verdict does not depend on machine load. The heaviest obligation of the
+        # unchanged tree needs about 21M units; R is three times that. Wall-clock T is only a generous backstop.
+        R = int(os.environ.get("NUCSVC_RLIMIT", "60000000"))
+        if T > 100000:
+            R = R * 3  # contracts that ask for a larger budget (semantic variants)
         if getattr(self, "unknowns", 0):
-            T = max(T // 4, 2000)  # the function is already not fully proved: do not spend the full budget on every further goal
+            R = max(R // 6, 5000000)  # the function is already not fully proved: do not spend the full budget on every further goal
         r = z3.unknown
         m = None
-        # unstable queries: several short attempts with different seeds before the long one (unknown is never a verdict)
-        for seed, budget in ((0, T // 6), (1, T // 6), (2, T // 6), (3, T // 2)):
-            s = self._solver(max(budget, 200))
+        # unstable queries: several attempts with different seeds before giving up (unknown is never a verdict)
+        for seed, budget in ((0, R // 10), (1, R // 10), (2, R // 10), (3, R // 4), (0, R), (4, 2 * R)):
+            s = z3.Solver()
+            s.set("timeout", 900000)
+            s.set("rlimit", budget)
             if seed:
                 s.set("random_seed", seed)
             for f in pc:
